@@ -64,6 +64,7 @@ type codecEnv struct {
 	encErr    string // kind of the encoder error oracleSlab met last ("" = none)
 	nestRej   bool   // oracleSlab: the register was rejected for its nesting depth
 	encPanic  bool   // EncodeSlab panicked on some slab of the current write set (sticky until the next commit)
+	named     bool   // runInlineProgram keys its composite maps by field names (hx.NK, codecnamed.go)
 }
 
 func (e *codecEnv) violation(prop, what string) {
@@ -1020,7 +1021,9 @@ func codecStream(cfg *Config) *hx.Stats {
 		e.prog = 200 + p
 		T := []uint32{512, 1024, 256, 2048}[p%4]
 		nOps := 30 + rng.Intn(50)
+		e.named = p%4 == 3 // every second compact program: field names as keys
 		e.runInlineProgram(rng, T, nOps, p%2 == 1, true)
+		e.named = false
 		st.Programs++
 		st.Ops += nOps
 	}
@@ -1055,7 +1058,8 @@ func codecStream(cfg *Config) *hx.Stats {
 		"directed:storable-slab-with-ref", "directed:composite-shape-0", "directed:composite-shape-2", "directed:composite-shape-4",
 		"directed:max-digest-level-committed", "observation:digest-level-limit", "directed:extra-data-256-entries-committed",
 		"observation:extra-data-index-limit", "encerr:xdindex", "encerr:level", "directed:extra-data-limit-recovered",
-		"observation:decmode-nesting-limit", "directed:nesting-reloaded:arr", "directed:nesting-reloaded:map", "directed:nesting-reloaded:warr"} {
+		"observation:decmode-nesting-limit", "directed:nesting-reloaded:arr", "directed:nesting-reloaded:map", "directed:nesting-reloaded:warr",
+		"directed:compact-type-id-reloaded", "inline:named-compact"} {
 		// (a run cut short by violations is judged by those, not by its coverage)
 		if st.Dist[tag] == 0 && st.HarnessErr == "" && len(st.Violations) == 0 {
 			st.HarnessErr = "codec stream never produced " + tag
@@ -1406,7 +1410,9 @@ func malformedStream(cfg *Config) *hx.Stats {
 	}
 	for p := 0; p < 6; p++ {
 		e.prog = 20 + p
+		e.named = p == 3
 		addAll(e.runInlineProgram(rng, []uint32{512, 1024, 256}[p%3], 25+rng.Intn(30), p%2 == 1, false))
+		e.named = false
 	}
 	for p := 0; p < 3; p++ {
 		e.prog = 30 + p
